@@ -89,6 +89,10 @@ class Roles:
               if 'suboperations' in self.record_fields[c] and
               p.subclasses(c, strict=True)]
         self.complex_root = cx[0] if cx else None
+        bl = [a for (c, a) in helper.lock_attrs() if c == self.builder]
+        if len(bl) != 1:
+            raise AnalysisError('builder lock not identified: %r' % bl)
+        self.builder_lock = (self.builder, bl[0])
         self.cache = helper.cache_class()
         ex = [c for c in p.classes if 'OPERATIONS' in p.classes[c].class_attrs]
         if len(ex) != 1:
